@@ -172,6 +172,9 @@ def step (q : Q) (toks : List String) (impl : String) : Res :=
       | some b => canon b
       | none => "err"
     { model := model, monitor := if impl == model then [] else ["error_table_matches_struct"], tags := ["errtab"] }
+  | "appendenc" :: name :: _ =>
+    -- MarshalSSZTo behind a non-empty prefix: the bytes appended are MarshalSSZ's, the prefix stays
+    { model := "diffs=0", monitor := if impl == "diffs=0" then [] else ["append_encoder_agrees"], tags := [name, "appendenc"], nontrivial := false }
   | "gval" :: name :: rest =>
     let lim := kv rest "inlim" == "1"
     let ok := kv it "enc" == "ok" && kv it "dec" == "ok" && kv it "eq" == "1"
